@@ -121,6 +121,10 @@ fn oracle_ok(ctx: &mut Ctx, input: &str, c: &AisleConf) {
     }
 
     // round trip
+    // on half of the inputs the configuration is queried first (what a shopping-list user does before saving): a
+    // read-only call must not change what `==` sees
+    let queried_first = input.len() % 2 == 0;
+    if queried_first { let _ = guarded(|| c.ingredients_info().len()); ctx.count("roundtrip:after-a-lookup"); }
     let rt = guarded(|| {
         let mut buf = Vec::new();
         aisle::write(c, &mut buf).map_err(|e| e.to_string())?;
@@ -132,14 +136,14 @@ fn oracle_ok(ctx: &mut Ctx, input: &str, c: &AisleConf) {
         Err(p) => { ctx.oracle_fail(desc.clone(), format!("write/re-parse panics: {p}"), psig(&p)); "panic".to_string() }
         Ok(Err(e)) => { ctx.oracle_fail(desc.clone(), format!("write fails: {e}"), "c11:write_error".into()); "write-error".to_string() }
         Ok(Ok((text, again))) => {
-            if again != "same" { ctx.oracle_fail(desc.clone(), format!("written as {:?}, parsed again: {again}", text), "c11:roundtrip".into()); }
+            if again != "same" { ctx.oracle_fail(desc.clone(), format!("written as {:?}, parsed again: {again}{}", text, if queried_first { " (ingredients_info() had been called on the configuration before)" } else { "" }), "c11:roundtrip".into()); }
             format!("rt {} {}", enc_text(&text), again.split(':').next().unwrap())
         }
     };
     ctx.case(format!("aisle_rt{} {}", sfx(), enc_text(input)), rt_reply, !c.categories.is_empty(), desc.clone());
 }
 
-/// lookup oracle + correspondence (after the round trip: `ingredients_info` writes the `len` cache)
+/// lookup oracle + correspondence
 fn lookups(ctx: &mut Ctx, input: &str, c: &AisleConf, probes: &[&str], max_cases: usize) {
     let desc = show(input);
     let info = match guarded(|| c.ingredients_info()) {
